@@ -42,10 +42,6 @@ Definition p_needed (c : ccase) : bool :=
   forallb (fun n => smemb n (runtime_bound (c_out c))) (runtime_needed (c_src c) (c_out c)).
 
 (* ---- modelled-libcst assumptions of the theorems, checked on every case *)
-Definition needed_okb (src applied : module) : bool :=
-  forallb (fun b => existsb (fun it => String.eqb (item_bound it) b && runtime_module (i_mod it))
-                            (run_items applied))
-          (runtime_needed src applied).
 Definition libcst_ok (c : ccase) : bool :=
   embedsb (c_src c) (c_applied c)
   && implb (c_changed c) (future_head (c_applied c))
